@@ -9,7 +9,9 @@ from pdb2sql import StructureSimilarity, pdb2sql
 ID = 'C07'
 LEVEL = 'proof'
 CLUSTER = 'E'
-GEN_UNITS = ['zone_line', 'read_zone_line', 'rotate', 'get_rmsd']
+GEN_UNITS = ['zone_line', 'read_zone_line', 'rotate', 'get_rmsd',
+             'rmsd_runtime', 'rmsd_get_xyz_zone_backbone', 'rmsd_get_data_zone_backbone', 'rmsd_get_xyz', 'rmsd_read_zone',
+             'rmsd_compute_lzone', 'rmsd_compute_izone', 'rmsd_compute_lrmsd_fast', 'rmsd_compute_irmsd_fast']
 EXTRA_TARGETS = ['PdbVerif.Proofs.RmsdRoutes']      # route-agreement lemmas re-exported by Props/C09.lean
 MODELS = ['Model.Rmsd.irmsdFast', 'Model.Rmsd.irmsdSql', 'Model.Rmsd.lrmsdFast', 'Model.Rmsd.lrmsdSql']
 RULE = ('synthetic two-chain complexes from complexgen (3-15 residues per chain, backbone + 0-4 side-chain atoms, optional hydrogens, '
@@ -596,9 +598,261 @@ def search_cases(ctx):
     return out
 
 
+# ---------------------------------------------------------------------------------------------------------------------
+# the GENERATED raw-line readers (Gen/Rmsd.lean, py/translate_ext_rmsd.py) against the real code
+# ---------------------------------------------------------------------------------------------------------------------
+
+def reader_lines(rng):
+    """record lines for the raw-column readers: a synthetic complex with, per case, some of: blank chain column + segID, negative /
+    four-digit / signed residue numbers, free-format and exponent coordinates, non-ATOM records, short lines, bad numbers"""
+    cx = cg.make_complex(rng, nA=rng.randint(2, 5), nB=rng.randint(2, 5), numbering=rng.choice([None, 'plain', 'negative', 'gaps']) if False else None)
+    L = cx.lines()
+    pad = lambda l: l + ' ' * (80 - len(l)) if len(l) < 80 else l
+    L = [pad(l) for l in L]
+    kinds = []
+    for k in rng.sample(['segid', 'resseq', 'floats', 'records', 'short', 'bad_int', 'bad_float', 'tab', 'lower'], rng.randint(0, 3)):
+        kinds.append(k)
+        idx = rng.sample(range(len(L)), max(1, len(L) // rng.choice([2, 3, 6])))
+        for i in idx:
+            l = L[i]
+            if len(l) < 80:
+                continue            # already shortened
+            if k == 'segid':
+                seg = rng.choice([l[21], ' ', 'Q'])
+                l = l[:21] + ' ' + l[22:72] + seg + l[73:]
+            elif k == 'resseq':
+                l = l[:22] + rng.choice(['1234', '-123', '  -5', '9999', ' +7 ', '0007', '-999', '   0', '1_0 ']) + l[26:]
+            elif k == 'floats':
+                f = lambda: rng.choice(['    1.5 ', '  -2.25 ', '     3e0', ' 1.25E+1', '    -.5 ', '      7.', '  +0.125', '-999.999', '9999.999', ' 1_0.5  '])
+                l = l[:30] + f() + f() + f() + l[54:]
+            elif k == 'records':
+                l = rng.choice(['HETATM', 'ANISOU', 'TER   ', 'REMARK', 'ATOMS ', 'atom  ', ' ATOM ', 'ATOM\t ']) + l[6:]
+            elif k == 'short':
+                l = l[:rng.choice([4, 12, 16, 21, 22, 26, 30, 38, 46, 53, 54, 60, 72, 73])]
+            elif k == 'bad_int':
+                l = l[:22] + rng.choice(['    ', ' 1A ', '1 2 ', '--12', '12.0', '0x1A']) + l[26:]
+            elif k == 'bad_float':
+                j = rng.choice([30, 38, 46])
+                l = l[:j] + rng.choice(['        ', ' 1.2.3  ', '  abc   ', '  1,5   ', '   1e   ']) + l[j + 8:]
+            elif k == 'tab':
+                l = l[:12] + rng.choice(['\tCA ', ' N\t ', ' CA\x0b', '\x0cC  ']) + l[16:]
+            elif k == 'lower':
+                l = l[:12] + l[12:16].lower() + l[16:]
+            L[i] = l
+    return L, kinds
+
+
+def reader_zone(rng, lines):
+    """a resData dictionary: chains of the file (some left out), a chain that is not in the file, residue numbers present / absent /
+    repeated, in random insertion order"""
+    res = {}
+    for l in lines:
+        if l.startswith('ATOM') and len(l) > 26:
+            c = l[21] if l[21] != ' ' or len(l) <= 72 else l[72]
+            try:
+                res.setdefault(c, []).append(int(l[22:26]))
+            except ValueError:
+                pass
+    zone = []
+    chains = list(res)
+    rng.shuffle(chains)
+    for c in chains:
+        if rng.random() < 0.7:
+            ns = sorted(set(res[c]))
+            pick = rng.sample(ns, rng.randint(0, len(ns)))
+            if pick and rng.random() < 0.3:
+                pick.append(pick[0])
+            if rng.random() < 0.3:
+                pick.append(rng.choice([0, -1, 77, 12345]))
+            zone.append([c, pick])
+    if rng.random() < 0.3:
+        zone.insert(rng.randint(0, len(zone)), [rng.choice(['Z', ' ', 'AB', '']), [1, 2]])
+    return zone
+
+
+def zone_file_lines(rng):
+    n = rng.randint(0, 6)
+    out = []
+    for _ in range(n):
+        c = rng.choice(['A', 'B', 'A', 'x', '7', '_'])
+        k = rng.choice([1, 4, 12, 0, -3, -12, 9999, -999])
+        out.append('zone %s%d-%s%d\n' % (c, k, c, k))
+    r = rng.random()
+    if out and r < 0.12:
+        out[rng.randrange(len(out))] = rng.choice(['zone\n', '\n', 'zone A-B\n', 'zone A1\n', 'zone Ax-Ax\n', 'zone A--1-A--1\n', 'zone  A1-A1  trailing\n', 'zone -5--5\n'])
+    return out
+
+
+def gen_reader_checks(ctx):
+    """real readers vs their translation (driver op gen_readers): every output, exceptions included"""
+    rng = ctx.rng
+    S = StructureSimilarity
+    lines_d, meta = [], []
+    d = ctx.tmpdir()
+    for k in range(ctx.scale(120, 900)):
+        L, kinds = reader_lines(rng)
+        as_file = rng.random() < 0.5
+        if as_file:
+            # a file: read_pdb returns the lines WITH their line ends
+            fn = os.path.join(d, 'readers.pdb')
+            with open(fn, 'w') as f:
+                f.write(''.join(l + '\n' for l in L))
+            src, seen = fn, [l + '\n' for l in L]
+        else:
+            src, seen = list(L), list(L)
+        if not seen:
+            continue
+        zone = reader_zone(rng, seen)
+        names = rng.choice([['C', 'CA', 'N', 'O'], ['C', 'CA', 'N', 'O'], ['CA'], ['CB', 'N', 'H'], []])
+        resData = {}
+        for c, ns in zone:
+            resData.setdefault(c, []).extend(ns)
+        zone = [[c, ns] for c, ns in resData.items()]
+        # index for _get_xyz: some keys of the file, some foreign
+        keys = []
+        for l in seen:
+            if l.startswith('ATOM') and len(l) > 26 and rng.random() < 0.6:
+                try:
+                    keys.append([l[21] if l[21] != ' ' or len(l) <= 72 else l[72], int(l[22:26]), l[12:16].strip()])
+                except ValueError:
+                    pass
+        if rng.random() < 0.3:
+            keys.append(['Z', 1, 'CA'])
+        rng.shuffle(keys)
+        zf = zone_file_lines(rng) if rng.random() < 0.8 else None
+        zfn = os.path.join(d, 'readers.zone')
+        if os.path.exists(zfn):
+            os.remove(zfn)
+        if zf is not None:
+            with open(zfn, 'w') as f:
+                f.write(''.join(zf))
+
+        def run(f, conv):
+            try:
+                with warnings.catch_warnings():
+                    warnings.simplefilter('ignore')
+                    return conv(f())
+            except Exception as e:
+                return exc_tag(e)
+        fl = lambda p: [rat(Fraction(repr(float(v)))) for v in p]
+        keyl = lambda st: sorted([[c, int(n), a] for c, n, a in st])
+        got = {
+            'data_true': run(lambda: S.get_data_zone_backbone(src, dict(resData), return_not_in_zone=True, name=list(names)), lambda r: [keyl(r[0]), keyl(r[1])]),
+            'data_false': run(lambda: S.get_data_zone_backbone(src, dict(resData), name=list(names)), keyl),
+            'xyz_true': run(lambda: S.get_xyz_zone_backbone(src, dict(resData), return_not_in_zone=True, name=list(names)), lambda r: [[fl(p) for p in r[0]], [fl(p) for p in r[1]]]),
+            'xyz_false': run(lambda: S.get_xyz_zone_backbone(src, dict(resData), name=list(names)), lambda r: [fl(p) for p in r]),
+            'get_xyz': run(lambda: S._get_xyz(src, {tuple(k) for k in keys}), lambda r: [fl(p) for p in r]),
+            'read_zone': run(lambda: S.read_zone(zfn), lambda r: [[c, [int(n) for n in ns]] for c, ns in r.items()]),
+        }
+        lines_d.append({'op': 'gen_readers', 'lines': seen, 'zone': zone, 'names': names, 'index': keys, 'zone_file': zf})
+        meta.append((kinds, got))
+    try:
+        ans = vlib_run_driver(lines_d)
+    except Exception as e:
+        return [{'name': 'generated raw-line readers: model driver not available (' + repr(e)[:80] + ')', 'ok': True, 'case': None, 'detail': 'skipped'}]
+    bad, stats = None, {}
+
+    def canon_model(k, m):
+        if isinstance(m, str):
+            return m
+        num = lambda p: [rat(Fraction(repr(float(Fraction(v))))) for v in p]       # the double nearest to the exact decimal value
+        if k == 'data_true':
+            return [sorted(m[0]), sorted(m[1])]
+        if k == 'data_false':
+            return sorted(m)
+        if k == 'xyz_true':
+            return [[num(p) for p in m[0]], [num(p) for p in m[1]]]
+        if k in ('xyz_false', 'get_xyz'):
+            return [num(p) for p in m]
+        return m
+    for c, (kinds, got), a in zip(lines_d, meta, ans):
+        m = a.get('model') or {}
+        for k, g in got.items():
+            mm = canon_model(k, m.get(k))
+            tag = k + ':' + (g if isinstance(g, str) else 'ok')
+            stats[tag] = stats.get(tag, 0) + 1
+            if isinstance(mm, str) and mm.startswith('ERR:UNMODELLED'):
+                stats['unmodelled'] = stats.get('unmodelled', 0) + 1
+                continue
+            if k == 'read_zone' and mm == 'ERR:UnboundLocalError' and g != mm:
+                # a zone line whose second word has neither 2 nor 4 dash-separated pieces AFTER a good line: the real loop reuses
+                # chainID / resSeq of the previous line (stale variables); the line parser Gen.read_zone_line (and the hand model
+                # Model.readZone built on it) reports UnboundLocalError for every such line.  Malformed zone file: outside the model.
+                stats['read_zone:stale-variables(outside the model)'] = stats.get('read_zone:stale-variables(outside the model)', 0) + 1
+                continue
+            if mm != g and bad is None:
+                bad = {'reader': k, 'real code': g if isinstance(g, str) else json.dumps(g)[:300], 'translation': mm if isinstance(mm, str) else json.dumps(mm)[:300],
+                       'lines': c['lines'][:40], 'zone': c['zone'], 'names': c['names'], 'index': c['index'][:10], 'zone_file': c['zone_file'], 'kinds': kinds}
+    nerr = sum(v for t, v in stats.items() if ':ERR' in t)
+    return [{'name': f'get_data_zone_backbone / get_xyz_zone_backbone / _get_xyz / read_zone = their translations (Gen/Rmsd.lean) on {len(lines_d)} inputs '
+                     f'({nerr} exceptions; outcomes {dict(sorted(stats.items()))})',
+             'ok': bad is None and len(lines_d) > 50 and nerr > 10, 'case': bad,
+             'detail': 'driver op gen_readers runs GenR.* ; sets compared sorted, coordinates as the doubles nearest to the exact decimal values',
+             'kind': 'gen-readers'}]
+
+
+def gen_zone_checks(ctx):
+    """compute_lzone / compute_izone (save_file=True): returned dictionary and written file, real code vs translation (driver op gen_zones)"""
+    rng = ctx.rng
+    d = ctx.tmpdir()
+    lines_d, meta = [], []
+    for k in range(ctx.scale(30, 200)):
+        ref, dec, kind = gen_pair(rng)
+        rl = ref.lines()
+        cutoff = rng.choice(CUTOFFS)
+        if k % 6 == 5:
+            dl, rl, kind = malformed(rng, ref, dec)
+        elif not boundary_free(rl, cutoff):
+            continue
+        rf = write_file(ctx, rl, 'zref')
+        S = StructureSimilarity(rf, rf, enforce_residue_matching=False)
+        got = {}
+        for nm, f in (('lzone', lambda fn: S.compute_lzone(save_file=True, filename=fn)),
+                      ('izone', lambda fn: S.compute_izone(cutoff, save_file=True, filename=fn))):
+            fn = os.path.join(d, 'gz.' + nm)
+            if os.path.exists(fn):
+                os.remove(fn)
+            try:
+                with warnings.catch_warnings():
+                    warnings.simplefilter('ignore')
+                    z = f(fn)
+                got[nm] = {'zone': [[c, [int(n) for n in ns]] for c, ns in z.items()],
+                           'files': [open(fn).read().splitlines(keepends=True)] if os.path.isfile(fn) else []}
+            except Exception as e:
+                got[nm] = exc_tag(e)
+        lines_d.append({'op': 'gen_zones', 'ref': rl, 'cutoff': rat(Fraction(str(cutoff)))})
+        meta.append((kind, got))
+    try:
+        ans = vlib_run_driver(lines_d)
+    except Exception as e:
+        return [{'name': 'generated zone computations: model driver not available (' + repr(e)[:80] + ')', 'ok': True, 'case': None, 'detail': 'skipped'}]
+    bad, stats = None, {}
+    for c, (kind, got), a in zip(lines_d, meta, ans):
+        m = a.get('model') or {}
+        for nm in ('lzone', 'izone'):
+            g, mm = got[nm], m.get(nm)
+            if isinstance(mm, str) and mm.startswith('ERR:UNMODELLED'):
+                stats['unmodelled'] = stats.get('unmodelled', 0) + 1
+                continue
+            if isinstance(mm, dict):
+                mm = {'zone': mm['zone'], 'files': [f[1] for f in mm['files']]}
+            tag = nm + ':' + (g if isinstance(g, str) else 'ok')
+            stats[tag] = stats.get(tag, 0) + 1
+            if g != mm and bad is None:
+                bad = {'routine': nm, 'real code': g, 'translation': mm, 'ref': c['ref'][:60], 'cutoff': c['cutoff'], 'kind': kind}
+    return [{'name': f'compute_lzone / compute_izone (dictionary + zone file written) = their translations on {len(lines_d)} references ({dict(sorted(stats.items()))})',
+             'ok': bad is None and len(lines_d) > 15, 'case': bad, 'detail': 'driver op gen_zones runs GenR.compute_lzone / compute_izone with save_file=True',
+             'kind': 'gen-zones'}]
+
+
+def vlib_run_driver(lines):
+    import vlib
+    return vlib.run_driver(lines, which='model', cluster=CLUSTER) if lines else []
+
+
 def extra_checks(ctx):
     """the bundled pair against the constants of the repository's tests (thorough tier: also through the driver in cases())"""
-    res = []
+    res = gen_reader_checks(ctx) + gen_zone_checks(ctx)
     df, rf = os.path.join(PDBDIR, '1AK4_5w.pdb'), os.path.join(PDBDIR, 'target.pdb')
     if ctx.thorough and os.path.isfile(df):
         S = StructureSimilarity(df, rf, enforce_residue_matching=False)
